@@ -67,6 +67,14 @@ CHECKS = {
         note="Trusted: stubs for connection/accessories (perms only), Enum lookup through the real enum module, z3. Formatting of "
              "'Unknown error code: n' is compared on the real library only.",
         design="DESIGN.md section 5 C13"),
+    "C04": dict(
+        text="For each step (setup M2/M4/M6, verify M2/M4, add/remove pairing on IP and BLE) the State byte and Error byte of the reply "
+             "are solver variables over 0..255 (plus absent / empty / two-byte variants) and the other fields a symbolic subset; the "
+             "reply bytes pass through the real TLV decoder as each transport applies it (with and without the 'expected' filter) into "
+             "the real generators and pairing calls (BLE with its full decorator stack). z3 discharges 'never success' and the table "
+             "4-5 exception class. Later steps are reached through ideal crypto (symbolic) / real crypto (replay).",
+        note="Trusted: ideal crypto only as environment to reach later steps, scripted transports, z3. Oracle calibration in DESIGN.md section 7.",
+        design="DESIGN.md section 5 C04"),
 }
 
 NOT_APPLICABLE = {
